@@ -469,11 +469,19 @@ static std::string roundLaws(int style, int rstyle, const mpq_class& x, const mp
   if (r != expect) return tie ? "tie within epsilon not resolved in the documented direction" : "result is not the nearest integer";
   return "";
 }
-// `unrep` is set when the documented result is the integer -1 and the target type is unsigned (argument in (-1,0) that
-// is truncated downward, or upward while equal to -1 within epsilon): nothing is required then.  Otherwise the laws
-// hold for unsigned targets as they stand: an argument in (-1,0) truncated upward must give 0 = floor+1, the only
-// value of I within distance 1 (`r` arrives here as -1 when the code returned the largest value of I, see resultZ)
-static std::string truncLaws(int style, int rstyle, bool uns, const mpq_class& x, const mpq_class& eps, const mpz_class& r, bool& unrep) {
+// the integer target type as the oracles see it
+struct IRange {
+  mpz_class lo, hi;
+  bool uns;
+  bool has(const mpz_class& v) const { return lo <= v && v <= hi; }
+};
+// `unrep` is set when the documented result is not a value of the target type (argument in (-1,0) truncated downward to an
+// unsigned type, or upward while equal to -1 within epsilon; argument beyond the largest value truncated upward; ...):
+// nothing is required then.  Otherwise the laws hold as they stand; `r` is the integer the returned value stands for (resultZ):
+// e.g. an argument in (-1,0) truncated upward to an unsigned type must give 0 = floor+1, and r = -1 means that the code
+// returned the largest value of the type
+static std::string truncLaws(int style, int rstyle, const IRange& ir, const mpq_class& x, const mpq_class& eps, const mpz_class& r, bool& unrep) {
+  const bool uns = ir.uns;
   mpz_class l = floorQ(x);
   unrep = false;
   if (uns && eqDoc(style, x, 0, eps))  // unsigned target: an argument equal to 0 within epsilon gives 0
@@ -482,7 +490,10 @@ static std::string truncLaws(int style, int rstyle, bool uns, const mpq_class& x
   if (rstyle == 0) dir = x > 0 ? 2 : 3;
   if (rstyle == 1) dir = x > 0 ? 3 : 2;
   bool eqL = eqDoc(style, mpq_class(l), x, eps), eqU = eqDoc(style, mpq_class(l + 1), x, eps);
-  if (uns && l < 0 && (dir == 2 || eqL)) { unrep = true; return ""; }
+  {  // the documented result (Props/C17.lean trunc_downward_spec / trunc_upward_spec)
+    mpz_class D = mpq_class(l) == x ? l : eqU ? mpz_class(l + 1) : dir == 2 ? l : eqL ? l : mpz_class(l + 1);
+    if (!ir.has(D)) { unrep = true; return ""; }
+  }
   if (r != l && r != l + 1) return "result is neither floor nor floor+1 of the argument";
   if (mpq_class(l) == x) return r == l ? "" : "integer argument not returned unchanged";
   if (dir == 2) {
@@ -490,8 +501,8 @@ static std::string truncLaws(int style, int rstyle, bool uns, const mpq_class& x
     if (r == l && eqU) return "downward: argument equal to the next integer within epsilon, but not snapped to it";
   } else {
     if (r == l && !eqL)
-      return uns && l < 0 ? "upward: unsigned target, argument in (-1,0): the result must be 0, got the largest value of the type (-1 wrapped around)"
-                          : "upward: result below the argument without being equal within epsilon";
+      return !ir.has(l) ? "upward: the integer below the argument is not a value of the target type: the result must be the integer above, got the one below wrapped around"
+                        : "upward: result below the argument without being equal within epsilon";
     if (r == l + 1 && mpq_class(l) == x && !eqU) return "upward: integer argument moved away";
     if (r == l + 1 && eqL && !eqU) return "upward: argument equal to the integer below within epsilon, but not snapped to it";
   }
@@ -500,12 +511,35 @@ static std::string truncLaws(int style, int rstyle, bool uns, const mpq_class& x
 
 // the largest value of an integer type
 template <class I> mpz_class maxOfI() { return mpz_class(std::to_string(std::numeric_limits<I>::max())); }
-// result of an unsigned computation read as the integer it stands for: for an argument in (-1,0) the integer below
-// is -1, which an unsigned type holds as its largest value (well-defined wrap-around)
+template <class I> constexpr int bitsOfI() { return std::numeric_limits<I>::digits + (std::numeric_limits<I>::is_signed ? 1 : 0); }
+// int and wider signed types: overflow is undefined, the harness keeps two values away from the ends of the range;
+// all other types reduce modulo 2^bits (well defined) and are exercised up to the ends
+template <class I> constexpr bool wideSigned() { return std::numeric_limits<I>::is_signed && bitsOfI<I>() >= 32; }
+template <class I> IRange rangeOfI() {
+  IRange ir;
+  ir.uns = !std::numeric_limits<I>::is_signed;
+  ir.hi = maxOfI<I>();
+  ir.lo = ir.uns ? mpz_class(0) : mpz_class(-ir.hi - 1);
+  return ir;
+}
+// the integer a returned value stands for: unsigned and narrow types reduce modulo 2^bits, so it is the integer congruent
+// to r that is nearest to the argument (for an argument in (-1,0) the largest unsigned value stands for -1, for an
+// argument above the largest value 0 stands for max+1, ...)
 template <class I> mpz_class resultZ(I r, const mpq_class& x) {
   mpz_class R(std::to_string(r));
-  if (!std::numeric_limits<I>::is_signed && x < 0 && R == maxOfI<I>()) R = -1;
+  if (!wideSigned<I>()) {
+    mpz_class m = mpz_class(1) << bitsOfI<I>();
+    mpz_class k = floorQ((x - mpq_class(R)) / mpq_class(m) + mpq_class(1, 2));
+    R += k * m;
+  }
   return R;
+}
+// domain of round / trunc in terms of tr = I(val) as an integer: I(val) must be a value of I; int and wider signed types
+// additionally keep lower-1 and upper+1 inside the type (signed overflow is undefined behaviour)
+template <class I> bool rtDomain(const mpz_class& tr) {
+  IRange ir = rangeOfI<I>();
+  if (wideSigned<I>()) return -(ir.hi - 2) <= tr && tr <= ir.hi - 2;
+  return ir.has(tr);
 }
 // which branch of the rounding algorithm does the (exact) argument take?  counters only
 static void rtBranchStats(bool isRound, int style, const mpq_class& x, const mpq_class& eps) {
@@ -581,10 +615,11 @@ template <class T, class I> Result execRT(bool isRound, int style, int rstyle, c
   res.impl = std::to_string(r);
   mpz_class R = resultZ<I>(r, X);
   bool unrep = false;
-  std::string l = isRound ? roundLaws(style, rstyle, X, E, R) : truncLaws(style, rstyle, !std::numeric_limits<I>::is_signed, X, E, R, unrep);
+  const IRange ir = rangeOfI<I>();
+  std::string l = isRound ? roundLaws(style, rstyle, X, E, R) : truncLaws(style, rstyle, ir, X, E, R, unrep);
   if (!l.empty()) res.oracle = "FAIL " + l;
   else if (!ovl.empty()) res.oracle = "FAIL " + ovl;
-  else if (unrep || (R < 0 && !std::numeric_limits<I>::is_signed)) res.oracle = "ok trivial";  // the documented integer is -1: not a value of I
+  else if (unrep || !ir.has(R)) res.oracle = "ok trivial";  // the documented integer is not a value of I
   // trunc, unsigned target, documented result -1: what the code returns there is not behaviour the property talks about; it is
   // not compared with the model either (the driver evaluates the same predicate and prints `unrep`)
   if (unrep && l.empty()) res.impl = "unrep";
@@ -592,6 +627,10 @@ template <class T, class I> Result execRT(bool isRound, int style, int rstyle, c
   if (!std::numeric_limits<I>::is_signed && X < 0) {
     stat(std::string(isRound ? "round" : "trunc") + "_unsigned_arg_in_(-1,0)");
     if (res.oracle == "ok") stat(std::string(isRound ? "round" : "trunc") + "_unsigned_arg_in_(-1,0)_result_0_required");
+  }
+  if (X > mpq_class(ir.hi) || X < mpq_class(ir.lo)) {
+    stat(std::string(isRound ? "round" : "trunc") + "_arg_beyond_range_end");
+    if (res.oracle == "ok") stat(std::string(isRound ? "round" : "trunc") + "_arg_beyond_range_end_decided");
   }
   rtBranchStats(isRound, style, X, E);
   return res;
@@ -809,33 +848,36 @@ template <class T> std::string froundLaws(int style, int rstyle, const mpq_class
   if (r != expect) return tie ? "tie within epsilon not resolved in the documented direction" : "result is not the nearest integer";
   return "";
 }
-template <class T> std::string ftruncLaws(int style, int rstyle, bool uns, const mpq_class& x, const mpq_class& eps, const mpz_class& r, bool& unrep) {
+template <class T> std::string ftruncLaws(int style, int rstyle, const IRange& ir, const mpq_class& x, const mpq_class& eps, const mpz_class& r, bool& unrep) {
+  const bool uns = ir.uns;
   mpz_class l = floorQ(x);
   unrep = false;
+  bool maybeZero = false;   // unsigned target and it is open whether the argument is 0 within epsilon
   if (uns) {
     int z = eqSlack<T>(style, x, 0, eps);
     if (z == 1) return r == 0 ? "" : "unsigned target: argument equal to 0 within epsilon did not give 0";
-    if (z < 0) { unrep = true; return ""; }
+    maybeZero = z < 0;
   }
   // integer arguments (all values from 2^(digits-1) on) come back unchanged; for the others both neighbours are values of T
-  if (mpq_class(l) == x) return r == l ? "" : "integer argument not returned unchanged";
+  if (mpq_class(l) == x) return maybeZero && r == 0 ? "" : r == l ? "" : "integer argument not returned unchanged";
   int eqL = eqSlack<T>(style, mpq_class(l), x, eps), eqU = eqSlack<T>(style, mpq_class(l + 1), x, eps);
-  if (uns && l < 0) {  // argument in (-1,0): unless the documented result is -1 (see truncLaws) it is 0
-    bool up = rstyle == 3 || rstyle == 0;
-    if (!up || eqL != 0) { unrep = true; return ""; }
-  }
-  if (r != l && r != l + 1) return "result is neither floor nor floor+1 of the argument";
-  stat(eqU == 1 ? "ftrunc_branch_snap_up" : eqU < 0 || eqL < 0 ? "ftrunc_branch_open_rounding" : eqL == 1 ? "ftrunc_branch_near_below" : "ftrunc_branch_plain");
   int dir = rstyle;
   if (rstyle == 0) dir = x > 0 ? 2 : 3;
   if (rstyle == 1) dir = x > 0 ? 3 : 2;
+  {  // every result the documentation admits up to rounding must be a value of the type, otherwise nothing is required
+    bool canL = eqU != 1 && (dir == 2 || eqL != 0), canU = eqU != 0 || (dir == 3 && eqL != 1);
+    if ((canL && !ir.has(l)) || (canU && !ir.has(l + 1))) { unrep = true; return ""; }
+  }
+  if (maybeZero) { unrep = true; return ""; }
+  if (r != l && r != l + 1) return "result is neither floor nor floor+1 of the argument";
+  stat(eqU == 1 ? "ftrunc_branch_snap_up" : eqU < 0 || eqL < 0 ? "ftrunc_branch_open_rounding" : eqL == 1 ? "ftrunc_branch_near_below" : "ftrunc_branch_plain");
   if (dir == 2) {
     if (r == l + 1 && eqU == 0) return "downward: result above the argument without being equal within epsilon";
     if (r == l && eqU == 1) return "downward: argument equal to the next integer within epsilon, but not snapped to it";
   } else {
     if (r == l && eqL == 0)
-      return uns && l < 0 ? "upward: unsigned target, argument in (-1,0): the result must be 0, got the largest value of the type (-1 wrapped around)"
-                          : "upward: result below the argument without being equal within epsilon";
+      return !ir.has(l) ? "upward: the integer below the argument is not a value of the target type: the result must be the integer above, got the one below wrapped around"
+                        : "upward: result below the argument without being equal within epsilon";
     if (r == l + 1 && mpq_class(l) == x && eqU == 0) return "upward: integer argument moved away";
     if (r == l + 1 && eqL == 1 && eqU == 0) return "upward: argument equal to the integer below within epsilon, but not snapped to it";
   }
@@ -851,6 +893,21 @@ template <class T> bool eqDocT(int style, T a, T b, T eps) {
   T tol = eps * m;
   return d <= tol;
 }
+// the documented result of trunc with every comparison made in the arithmetic of T (what the driver computes with the
+// mathematical-integer model `trunc`): is it a value of the target type?
+template <class T> bool truncDocFitsT(int style, int rstyle, const IRange& ir, const mpq_class& X, T val, T eps) {
+  if (ir.uns && eqDocT<T>(style, val, T(0), eps)) return true;   // 0
+  mpz_class l = floorQ(X);
+  if (mpq_class(l) == X) return ir.has(l);
+  // a non-integer value of T is below 2^(digits-1): l and l+1 fit a long and convert exactly
+  T tl = (T)l.get_si(), tu = (T)mpz_class(l + 1).get_si();
+  bool eqL = eqDocT<T>(style, tl, val, eps), eqU = eqDocT<T>(style, tu, val, eps);
+  int dir = rstyle;
+  if (rstyle == 0) dir = val > T(0) ? 2 : 3;
+  if (rstyle == 1) dir = val > T(0) ? 3 : 2;
+  mpz_class D = eqU ? mpz_class(l + 1) : dir == 2 ? l : eqL ? l : mpz_class(l + 1);
+  return ir.has(D);
+}
 template <class T, class I> Result execFRT(bool isRound, int style, int rstyle, const Dy& dv_, const EpsArg& ea) {
   Result res;
   if (!representable<T>(dv_) || (!ea.dflt && (!representable<T>(ea.d) || ea.d.m < 0)))
@@ -858,10 +915,10 @@ template <class T, class I> Result execFRT(bool isRound, int style, int rstyle, 
   constexpr bool uns = !std::numeric_limits<I>::is_signed;
   mpq_class X = toQ(dv_);
   mpz_class tr = truncQ(X), hi = maxOfI<I>();
-  // I(val), lower-1 and upper+1 stay inside I; unsigned targets: val > -1 (for val in (-1,0) `lower--` wraps around to the
-  // largest value of I, which is well defined; I(val) is undefined from -1 on)
-  bool inRange = uns ? (X > -1 && tr <= hi - 2) : (-(hi - 2) <= tr && tr <= hi - 2);
-  if (!inRange) return Result{"skip", "ok trivial"};
+  // I(val) is a value of I (unsigned: val > -1); int / long: lower-1 and upper+1 stay inside the type as well
+  (void)hi;
+  if (!rtDomain<I>(tr)) return Result{"skip", "ok trivial"};
+  const IRange ir = rangeOfI<I>();
   T val = toT<T>(dv_);
   T eps = ea.dflt ? docDefaultEps<T>(style) : toT<T>(ea.d);
   mpq_class E = qOf<T>(eps);
@@ -870,19 +927,22 @@ template <class T, class I> Result execFRT(bool isRound, int style, int rstyle, 
   res.impl = std::to_string(r);
   mpz_class R = resultZ<I>(r, X);
   bool unrep = false;
-  std::string l = isRound ? froundLaws<T>(style, rstyle, X, E, R) : ftruncLaws<T>(style, rstyle, uns, X, E, R, unrep);
+  std::string l = isRound ? froundLaws<T>(style, rstyle, X, E, R) : ftruncLaws<T>(style, rstyle, ir, X, E, R, unrep);
   if (!l.empty()) res.oracle = "FAIL " + l;
   else if (!ovl.empty()) res.oracle = "FAIL " + ovl;
-  else if (unrep || (R < 0 && uns)) res.oracle = "ok trivial";
-  if (!isRound && uns && X < 0 && l.empty() && !eqDocT<T>(style, val, T(0), eps) &&
-      (rstyle == 1 || rstyle == 2 || eqDocT<T>(style, T(-1), val, eps))) {
-    res.impl = "unrep";            // documented result -1 (see execRT)
+  else if (unrep || !ir.has(R)) res.oracle = "ok trivial";
+  if (!isRound && l.empty() && !truncDocFitsT<T>(style, rstyle, ir, X, val, eps)) {
+    res.impl = "unrep";            // the documented result is not a value of I (see execRT)
     if (res.oracle == "ok") res.oracle = "ok trivial";
   }
   stat(std::string(isRound ? "fround_" : "ftrunc_") + RSTYLES[rstyle]);
   if (uns && X < 0) {
     stat(std::string(isRound ? "fround" : "ftrunc") + "_unsigned_arg_in_(-1,0)");
     if (res.oracle == "ok") stat(std::string(isRound ? "fround" : "ftrunc") + "_unsigned_arg_in_(-1,0)_result_0_required");
+  }
+  if (X > mpq_class(ir.hi) || X < mpq_class(ir.lo)) {
+    stat(std::string(isRound ? "fround" : "ftrunc") + "_arg_beyond_range_end");
+    if (res.oracle == "ok") stat(std::string(isRound ? "fround" : "ftrunc") + "_arg_beyond_range_end_decided");
   }
   if (ea.dflt) stat("frt_default_eps");
   if (abs(X) + 2 >= pow2q(std::numeric_limits<T>::digits)) stat("frt_beyond_exact_integers");
@@ -1029,15 +1089,13 @@ template <class M, class I> Result execMfrT(int style, int rstyle, bool dflt, M 
   using Fm = typename M::Fm;
   Result res;
   constexpr bool uns = !std::numeric_limits<I>::is_signed;
-  const double hi = (double)std::numeric_limits<I>::max();
-  // I(val), lower-1 and upper+1 stay inside I (2^63 - 2 etc. are far above every value of the formats); unsigned: val > -1
+  // I(val) is a value of I (unsigned: val > -1); int / long: lower-1 and upper+1 inside the type (all values of the formats are)
   double tr = std::trunc(v.v);
-  bool inRange = uns ? (v.v > -1 && tr <= hi - 2) : (-(hi - 2) <= tr && tr <= hi - 2);
-  if (!inRange) return Result{"skip", "ok trivial"};
+  if (!rtDomain<I>(mpz_class(tr))) return Result{"skip", "ok trivial"};
   std::string ovl;
   I r = callRTdyn<M, I>(true, style, rstyle, dflt, v, eps, ovl);
   I t = callRTdyn<M, I>(false, style, rstyle, dflt, v, eps, ovl);
-  auto asZ = [&](I x) { return uns && v.v < 0 && x == std::numeric_limits<I>::max() ? -1.0 : (double)x; };
+  auto asZ = [&](I x) { return resultZ<I>(x, mpq_class(v.v)).get_d(); };   // the integer the returned value stands for
   bool unrep = false;
   std::string l = mfRoundDocF<Fm>(style, rstyle, v.v, eps.v, asZ(r));
   if (l.empty()) {
@@ -1350,12 +1408,15 @@ Result exec(const std::string& line) {
     if (!(okVal(ft, v) && okEps(ft, e))) return skip();
     bool uns = w[2][0] == 'u';
     bool isRound = op == "round";
-    {  // I(val), lower-1 and upper+1 stay inside I.  Unsigned targets: val > -1; for val in (-1,0) trunc computes T(M) - val with
-       // M = 2^bits - 1, which is exact in T (the premise of these ops) only if bits + exponent window <= precision
-      mpz_class tr = truncQ(toQ(v)), hi = (mpz_class(1) << (rtBits(w[2]) - (uns ? 0 : 1))) - 1;
-      bool in = uns ? tr <= hi - 2 && (v.m >= 0 || (toQ(v) > -1 && (isRound || rtBits(w[2]) + ft.ew <= ft.prec)))
-                    : (-(hi - 2) <= tr && tr <= hi - 2);
-      if (!in) return skip();
+    {  // either I(val), lower-1 and upper+1 stay inside I (nothing wraps around), or - unsigned and narrow types - I(val) is a
+       // value of I (val in (-1,0) for unsigned, val beyond the ends of the range).  When something wraps, trunc converts the
+       // wrapped value back (T(M) - val with M = 2^bits - 1, ...), which is exact in T (the premise of these ops) only if
+       // bits + exponent window <= precision; round never converts a wrapped value
+      const int bits = rtBits(w[2]);
+      mpz_class tr = truncQ(toQ(v)), hi = (mpz_class(1) << (bits - (uns ? 0 : 1))) - 1, lo = uns ? mpz_class(0) : mpz_class(-hi - 1);
+      bool noWrap = uns ? (v.m >= 0 && tr <= hi - 2) : (-(hi - 2) <= tr && tr <= hi - 2);
+      bool full = !(!uns && bits >= 32) && lo <= tr && tr <= hi && (isRound || bits + ft.ew <= ft.prec);
+      if (!(noWrap || full)) return skip();
     }
     stat("rt_" + w[2]);
     return withRTType(w[2], [&](auto I0) {
@@ -1716,6 +1777,15 @@ static std::string genRT(Rng& r) {
   long nb = f32 ? 4 : 11;
   long n = r.coin(2, 3) ? (long)r.range(-6, 6) : (long)r.range(-(1l << nb), (1l << nb));
   if (ibits == 8) n %= 120;
+  // the ends of the range of the narrow / unsigned target types: val in [max-1, max+1) and (min-1, min+1]
+  bool atEnd = false;
+  if ((ibits == 8 || (ibits == 16 && !f32)) && r.coin(1, 5)) {
+    long hiI = (1l << (ibits - (it[0] == 'u' ? 0 : 1))) - 1;
+    atEnd = true;
+    if (it[0] == 'u' || r.coin()) n = hiI - (long)r.below(2);
+    else n = -hiI - 1 - (long)r.below(2);    // the fraction is added toward +infinity: val in [min-2, min)
+    if (it[0] != 'u' && n < 0 && r.coin()) n += 1;
+  }
   long j = (long)r.range(1, f32 ? 6 : 12);
   GD f;
   GD half{1, -1}, tiny{1, -j};
@@ -1745,6 +1815,7 @@ static std::string genRT(Rng& r) {
     else val.m = -val.m;
   }
   FT ft; parseFT(f32 ? "f32" : "f64", ft);
+  (void)atEnd;
   if (!okVal(ft, gDy(val)) || !okEps(ft, gDy(eps))) { val = GD{n < 0 && it[0] == 'u' ? -n : n, 0}; val = gAdd(val, half); eps = GD{1, -3}; }
   std::ostringstream os;
   os << (isRoundOp ? "round " : "trunc ") << (f32 ? "f32 " : "f64 ") << it << " " << STYLES[st] << " " << RSTYLES[rs] << " " << gStr(val) << " "
@@ -1920,6 +1991,12 @@ template <class T> std::string genFRTT(Rng& r) {
   T val = nudge(fixFinite(n + f), r.coin(1, 2) ? r.range(-3, 3) : 0);
   if (uns && val < T(0)) val = -val;
   if (uns && r.coin(1, 4)) val = r.coin() ? -f : nudge(-f, r.range(-2, 2));   // unsigned targets: (-1,0], where `lower--` wraps around
+  else if (rtBits(it) < 32 && r.coin(1, 5)) {   // narrow types: around the largest / smallest value (val in (max, max+1), (min-1, min))
+    T hiI = std::ldexp(T(1), vb) - T(1);
+    val = (uns || r.coin()) ? hiI - T((long)r.below(2)) + f : -hiI - T(1) + T((long)r.below(2)) - f;
+  } else if (uns && std::numeric_limits<T>::digits > vb && r.coin(1, 8)) {   // unsigned / unsigned long: (max-1, max+1)
+    val = (std::ldexp(T(1), vb) - T(1)) - T((long)r.below(2)) + f;
+  }
   std::ostringstream os;
   os << (isRound ? "fround " : "ftrunc ") << FTr<T>::name << " " << it << " " << STYLES[st] << " " << RSTYLES[rs] << " " << dyStr<T>(fixFinite(val)) << " "
      << epsTok(eps, dflt);
@@ -1998,7 +2075,7 @@ template <class Fm> static void mfriAdd(MfriTab& t, const std::string& fmt, cons
   for (long i = 0; i < Fm::nFinite; ++i) {
     int c = Fm::finiteIdx(i);
     double v = Fm::value((unsigned)c), tr = std::trunc(v);
-    bool in = uns ? (v > -1 && tr <= hi - 2) : (-(hi - 2) <= tr && tr <= hi - 2);
+    bool in = uns ? (v > -1 && tr <= hi) : (-(hi + 1) <= tr && tr <= hi);   // narrow and unsigned types only (rtDomain)
     if (in) { t.head.push_back(fmt + " " + it); t.code.push_back(c); }
   }
 }
